@@ -22,11 +22,11 @@ NA = {
 
 CLAIMS = {
  "C04": ("exploration", "DESIGN.md §4 C04",
-         "Seeded simulation of `run` versus `compile`+`execute` over the example corpus, generated programs of every feature area, multi-module projects and the exhaustive string enumeration, with the file system behind the shim (short/EINTR reads and writes, stale and torn artefacts from killed compiles, per-process hash seeds) and the collector under a seeded schedule; oracle: stdout and exit class equal, loaded instruction streams of the entry module equal.",
-         "real binary built from /repo with --cfg mscript_verif; shim sees libc calls; hard-fault runs are observations only because the statement is silent about a failing environment",
+         "Seeded simulation of `run` versus `compile`+`execute` over the example corpus, generated programs of every feature area, multi-module projects and the exhaustive string enumeration, with the file system behind the shim (short/EINTR reads and writes, stale and torn artefacts from killed compiles, per-process hash seeds) and the collector under a seeded schedule; oracle: stdout and exit class equal, loaded instruction streams equal (hook dump); workloads also include the 143 programs of the repository's test-suite and size/shape templates.",
+         "real binary built from /repo with --cfg mscript_verif; shim sees libc calls; under injected I/O errors a process that was hit may fail (then nothing downstream is judged), but if it reports success the ordinary oracle applies",
          "deterministic simulation: libc fault-injection shim + seeded GC schedule, differential oracle run vs compile+execute"),
  "C07": ("exploration", "DESIGN.md §4 C07",
-         "Seeded closure histories (creation contexts x <=12 operations) executed by the real binary under seeded collector schedules (0/1%/10%/100% of instructions) and hash seeds, in memory and from files; oracle: line-by-line equality with a reference cell model.",
+         "An enumerated batch (one captured variable, one use, every syntactic position, owner frame gone, same-named decoy in the caller) and seeded closure histories (creation contexts x <=12 operations) executed by the real binary under seeded collector schedules (0/1%/10%/100% of instructions) and hash seeds, in memory and from files; oracle: line-by-line equality with a reference cell model.",
          "reference model written from the property statement; generator stays inside the language fragment characterised in DESIGN.md §9",
          "deterministic simulation: seeded GC schedule + hash seeds, history vs reference cell model"),
  "C08": ("exploration", "DESIGN.md §4 C08",
@@ -46,7 +46,7 @@ CLAIMS = {
          "trace label format taken from the implementation (DESIGN.md §9)",
          "deterministic simulation: fault placement along generated call histories, stream interleaving under the shim, call-stack model"),
  "C18": ("exploration", "DESIGN.md §4 C18",
-         "Three-step pipeline (compile raw-text, transpile, execute) versus `run` over corpus, generators and the exhaustive argument-string enumeration, all three processes behind the shim (short/EINTR, dirty output file, hash seeds); oracle: stdout and exit class equal, instruction streams equal.",
+         "Three-step pipeline (compile raw-text, transpile, execute) versus `run` over corpus, generators and the exhaustive argument-string enumeration, all three processes behind the shim (short/EINTR, dirty output file, hash seeds); oracle: stdout and exit class equal, instruction streams equal; plus a hand-written file naming every instruction of the table.",
          "as C04",
          "deterministic simulation: libc fault-injection shim over the transpile pipeline, differential oracle"),
  "C19": ("fault_enumeration", "DESIGN.md §4 C19",
